@@ -536,6 +536,10 @@ func runPrefix(hid int, p prefix, rng *rand.Rand, rec *Recorder, reps int) {
 		return calls[i].v+string(calls[i].via)+calls[i].q < calls[j].v+string(calls[j].via)+calls[j].q
 	})
 	rng.Shuffle(len(calls), func(i, j int) { calls[i], calls[j] = calls[j], calls[i] })
+	// every query occurs a second time, at another point of the history
+	second := append([]call(nil), calls...)
+	rng.Shuffle(len(second), func(i, j int) { second[i], second[j] = second[j], second[i] })
+	calls = append(calls, second...)
 	for _, c := range calls {
 		ev := &stepEvent{}
 		h := vars[c.v]
